@@ -118,3 +118,10 @@ exit_paths = dict(
     bounded=dict(bound='9 ways to end the process x 3 backend configurations x 2 thread configurations x K = 0..4 (thorough: 0..16) statements; one schedule per case (the OS decides the interleaving of the backend thread)', form='b'),
     dropped=[], trusted=['one OS schedule per case: this stand-in samples interleavings, the contract units BW.exit / BW.main_loop / SIG.on_signal carry the "for every point" part'], min_obligations=1, timeout=1500)
 UNITS += [exit_paths]
+flush_real = dict(
+    name='LG.flush_real', primary='C06', props={'C06'}, kind='L', funcs=[], enforce=None,
+    desc='flush_log() with the REAL backend thread (forked child per case, periodic flushing disabled): when it returns, everything the calling thread logged before is in the files - one logger, two loggers, a shared sink, sinks with a before_write hook, a logger removed before the flush',
+    native=dict(cpp='flush_real.cpp', file='include/quill/Logger.h', function='LoggerImpl::flush_log, BackendWorker::{_process_transit_event (Flush arm),_flush_and_run_active_sinks}, StreamSink::{write_log,flush_sink}', defs_quick=['KMAX=4'], defs_thorough=['KMAX=12']),
+    bounded=dict(bound='5 arrangements x backend sleeping / polling x K = 0..4 (thorough: 0..12) statements; one OS schedule per case', form='b'),
+    dropped=[], trusted=['one OS schedule per case: the contract units LG.flush_log / BW.process_event / BW.flush_sinks / BW.collect_sinks / SS.* carry the "for every interleaving" part'], min_obligations=1, timeout=1500)
+UNITS += [flush_real]
